@@ -15,35 +15,83 @@ import (
 // usually depends on runtime.GOMAXPROCS. The small grids and C12.big (which
 // runs with the machine's 16 processors only) cannot see such a path.
 
+// PCase: every shape of procShapes(Type, N) is run with GOMAXPROCS = Procs (one switch per case: changing
+// GOMAXPROCS stops the world, which is slow on a loaded machine). Only >= 0 selects a single shape (replay of a
+// shrunk case; -1 = all).
 type PCase struct {
-	Procs int `json:"procs"`
-	TCase
+	Procs int    `json:"procs"`
+	Type  string `json:"type"`
+	N     int    `json:"n"`
+	Only  int    `json:"only"`
+}
+
+// procShapes: the calls made on n elements of type tn.
+func procShapes(tn string, n int) []TCase {
+	if n < 16 {
+		return nil
+	}
+	h := n / 2
+	v := 1
+	l := []TCase{
+		{Type: tn, V: v, Case: Case{Op: "Fill", Len: n, Spare: n % 2}},
+		{Type: tn, V: v, Case: Case{Op: "Repeat", K: n}},
+		{Type: tn, Case: Case{Op: "Reverse", Len: n, Spare: 1}},
+		{Type: tn, Case: Case{Op: "Clone", Len: n, Spare: 5}},
+		{Type: tn, Case: Case{Op: "Concat", Len: h, Spare: n - h + 3, LenB: n - h}},
+		{Type: tn, V: v, Case: Case{Op: "InsertSlice", Len: n - h, Spare: h, Index: 1, K: h}}, // large batch, large shift, in place
+		{Type: tn, Case: Case{Op: "RemoveSlice", Len: n, Spare: 3, Index: n / 4, K: h}},
+	}
+	if n > 1<<21 {
+		return l
+	}
+	return append(l,
+		TCase{Type: tn, Case: Case{Op: "Concat", Len: n - 3, LenB: 3, SpareB: 1}},
+		TCase{Type: tn, Case: Case{Op: "Grow", Len: 10, Spare: n, K: n - 10}},           // in place, n-10 zeros over poison
+		TCase{Type: tn, Case: Case{Op: "Grow", Len: h, Spare: 1, K: n - h}},             // reallocation
+		TCase{Type: tn, V: v, Case: Case{Op: "Insert", Len: n - 1, Spare: 1, Index: 1}}, // shifts n-2 elements in place
+		TCase{Type: tn, V: v, Case: Case{Op: "Insert", Len: n - 1, Spare: 0, Index: h}},
+		TCase{Type: tn, V: v, Case: Case{Op: "InsertSlice", Len: n - h, Spare: 0, Index: (n - h) / 2, K: h}},
+		TCase{Type: tn, V: v, Case: Case{Op: "InsertSlice", Len: 10, Spare: 3, Index: 5, K: n - 10}},
+		TCase{Type: tn, Case: Case{Op: "Remove", Len: n, Spare: 2, Index: 1}},
+		TCase{Type: tn, Case: Case{Op: "RemoveSlice", Len: n, Spare: 0, Index: 1, K: 7}},
+	)
 }
 
 func RunProcs(c PCase) pbt.Outcome {
-	if c.Procs < 1 || c.Procs > 256 {
+	shapes := procShapes(c.Type, c.N)
+	if c.Procs < 1 || c.Procs > 256 || len(shapes) == 0 || c.Only >= len(shapes) {
 		return pbt.Outcome{Skipped: true, Evals: 1}
 	}
 	defer runtime.GOMAXPROCS(runtime.GOMAXPROCS(c.Procs))
-	out := RunTyped(c.TCase)
-	if out.Violation != "" {
-		out.Violation = fmt.Sprintf("with runtime.GOMAXPROCS(%d): %s", c.Procs, out.Violation)
-		return out
+	res := pbt.Outcome{}
+	for i, tc := range shapes {
+		if c.Only >= 0 && i != c.Only {
+			continue
+		}
+		var out pbt.Outcome
+		if tc.Type == "int" {
+			out = Run(tc.Case) // the non-generic runner of C12.rand: same oracle, several times faster on 10^5 elements
+		} else {
+			out = RunTyped(tc)
+		}
+		if out.Violation != "" {
+			out.Violation = fmt.Sprintf("with runtime.GOMAXPROCS(%d), n = %d (call %d of the case): %s", c.Procs, c.N, i, out.Violation)
+			return out
+		}
+		res.Evals++
+		res.Labels = append(res.Labels, "procs:op="+tc.Op)
 	}
-	if out.Skipped {
-		return out
-	}
-	size := c.Len + c.K + c.LenB
-	l := "procs:size<2^13"
-	for e := 25; e >= 13; e-- {
-		if size >= 1<<e-2 {
-			l = fmt.Sprintf("procs:size>=2^%d-2", e)
+	l := "procs:n<2^13"
+	for e := 26; e >= 13; e-- {
+		if c.N >= 1<<e-2 {
+			l = fmt.Sprintf("procs:n>=2^%d-2", e)
 			break
 		}
 	}
-	out.Labels = append(out.Labels, fmt.Sprintf("procs:GOMAXPROCS=%d", c.Procs), l)
-	out.NonTrivial = size >= 1<<13-2
-	return out
+	res.Labels = append(res.Labels, fmt.Sprintf("procs:GOMAXPROCS=%d", c.Procs), l, "procs:type="+c.Type)
+	res.NonTrivial = c.N >= 1<<13-2
+	res.NTCount = 1
+	return res
 }
 
 func enumerateProcs(shard, shards int, tier string, yield0 func(PCase) bool) {
@@ -73,46 +121,19 @@ func enumerateProcs(shard, shards int, tier string, yield0 func(PCase) bool) {
 	}
 	sizes = append(sizes, 10000, 100003)
 	sizes = uniq(sizes, 1<<30)
-	shapes := func(tn string, n int, v int) []TCase {
-		h := n / 2
-		return []TCase{
-			{Type: tn, V: v, Case: Case{Op: "Fill", Len: n, Spare: n % 2}},
-			{Type: tn, V: v, Case: Case{Op: "Repeat", K: n}},
-			{Type: tn, Case: Case{Op: "Reverse", Len: n, Spare: 1}},
-			{Type: tn, Case: Case{Op: "Clone", Len: n, Spare: 5}},
-			{Type: tn, Case: Case{Op: "Concat", Len: h, Spare: n - h + 3, LenB: n - h}},
-			{Type: tn, Case: Case{Op: "Concat", Len: n - 3, LenB: 3, SpareB: 1}},
-			{Type: tn, Case: Case{Op: "Grow", Len: 10, Spare: n, K: n - 10}},           // in place, n-10 zeros over poison
-			{Type: tn, Case: Case{Op: "Grow", Len: h, Spare: 1, K: n - h}},             // reallocation
-			{Type: tn, V: v, Case: Case{Op: "Insert", Len: n - 1, Spare: 1, Index: 1}}, // shifts n-2 elements in place
-			{Type: tn, V: v, Case: Case{Op: "Insert", Len: n - 1, Spare: 0, Index: h}},
-			{Type: tn, V: v, Case: Case{Op: "InsertSlice", Len: n - h, Spare: h, Index: 1, K: h}}, // large batch, large shift, in place
-			{Type: tn, V: v, Case: Case{Op: "InsertSlice", Len: n - h, Spare: 0, Index: (n - h) / 2, K: h}},
-			{Type: tn, V: v, Case: Case{Op: "InsertSlice", Len: 10, Spare: 3, Index: 5, K: n - 10}},
-			{Type: tn, Case: Case{Op: "Remove", Len: n, Spare: 2, Index: 1}},
-			{Type: tn, Case: Case{Op: "RemoveSlice", Len: n, Spare: 0, Index: 1, K: 7}},
-			{Type: tn, Case: Case{Op: "RemoveSlice", Len: n, Spare: 3, Index: n / 4, K: h}},
-		}
-	}
 	for _, n := range sizes {
 		for i, p := range procs {
-			tn := "int"
-			// the other element sizes take turns so that every (size, procs) pair is run on ints and on one more type
-			other := []string{"uint8", "string", "[16]uint64(128B)", "float64"}[(i+n)%4]
-			for _, tc := range shapes(tn, n, 1) {
-				yield(PCase{Procs: p, TCase: tc})
-			}
-			if n <= 1<<16+1 {
-				for _, tc := range shapes(other, n, 1) {
-					yield(PCase{Procs: p, TCase: tc})
-				}
+			yield(PCase{Procs: p, Type: "int", N: n, Only: -1})
+			// the other element sizes take turns
+			if n <= 1<<15+1 && (tier == "thorough" || (i+n/7)%3 == 0) {
+				yield(PCase{Procs: p, Type: []string{"uint8", "string", "[16]uint64(128B)", "float64"}[(i+n)%4], N: n, Only: -1})
 			}
 			if stop {
 				return
 			}
 		}
 	}
-	// 2^24 and 2^25 one-byte cells
+	// 2^25 one-byte cells
 	exps := []int{25}
 	bp := []int{3}
 	if tier == "thorough" {
@@ -120,19 +141,8 @@ func enumerateProcs(shard, shards int, tier string, yield0 func(PCase) bool) {
 	}
 	for _, e := range exps {
 		for _, d := range []int{-1, 0, 1} {
-			n := 1<<e + d
 			for _, p := range bp {
-				for _, tc := range []TCase{
-					{Type: "uint8", V: 1, Case: Case{Op: "Fill", Len: n, Spare: 1}},
-					{Type: "uint8", V: 2, Case: Case{Op: "Repeat", K: n}},
-					{Type: "uint8", Case: Case{Op: "Reverse", Len: n}},
-					{Type: "uint8", Case: Case{Op: "Clone", Len: n, Spare: 1}},
-					{Type: "uint8", Case: Case{Op: "Concat", Len: n / 2, LenB: n - n/2}},
-					{Type: "uint8", V: 1, Case: Case{Op: "InsertSlice", Len: n / 2, Spare: n - n/2, Index: 3, K: n - n/2}},
-					{Type: "uint8", Case: Case{Op: "RemoveSlice", Len: n, Spare: 0, Index: 5, K: n / 2}},
-				} {
-					yield(PCase{Procs: p, TCase: tc})
-				}
+				yield(PCase{Procs: p, Type: "uint8", N: 1<<e + d, Only: -1})
 			}
 		}
 	}
@@ -141,15 +151,15 @@ func enumerateProcs(shard, shards int, tier string, yield0 func(PCase) bool) {
 var specProcs = pbt.Register(&pbt.Spec[PCase]{
 	Property: "C12", Name: "C12.procs",
 	Rule: "enumerated: LARGE inputs, each run with runtime.GOMAXPROCS set to p inside the case (restored afterwards) for p in {1, 2, 3, 5, 6, 7} (thorough {1..8, 11, 16, 17, 32}): " +
-		"size n in {2^e-1, 2^e, 2^e+1, 3*2^(e-1)+1 : e = 13..17 (thorough ..20)} + {10000, 100003}; for every (n, p): Fill and Repeat (n elements), Reverse, Clone, Concat (two halves; n-3 and 3), " +
+		"size n in {2^e-1, 2^e, 2^e+1, 3*2^(e-1)+1 : e = 13..17 (thorough ..20)} + {10000, 100003}; for every (n, p) one case that makes all of these calls: Fill and Repeat (n elements), Reverse, Clone, Concat (two halves; n-3 and 3), " +
 		"Grow (in place by n-10 over poisoned capacity; by n/2 with reallocation), Insert (shifting n-2 elements in place; with reallocation in the middle), InsertSlice " +
 		"(n/2 values at index 1 in place; n/2 values in the middle with reallocation; n-10 values into a 10-element slice), Remove at 1, RemoveSlice (7 at index 1; n/2 at n/4) - " +
-		"on int elements and, for n <= 2^16+1, on one of uint8 / string / [16]uint64 (128 bytes) / float64 in turn; plus one-byte elements at 2^25-1, 2^25, 2^25+1 cells " +
-		"(thorough 2^24..2^26, five settings): Fill, Repeat, Reverse, Clone, Concat, InsertSlice, RemoveSlice. Oracle = C12.types (splice model, poisoned spare capacity, " +
+		"on int elements and, for n <= 2^15+1 and a third of the (n, p) pairs (thorough: all), on one of uint8 / string / [16]uint64 (128 bytes) / float64 in turn; plus one-byte elements at 2^25-1, 2^25, 2^25+1 cells " +
+		"with p = 3 (thorough 2^24..2^26, five settings): Fill, Repeat, Reverse, Clone, Concat, InsertSlice, RemoveSlice. Oracle = C12.types (splice model, poisoned spare capacity, " +
 		"no shared memory for Concat/Clone). Not run as parallel copies (GOMAXPROCS is process-wide). non-trivial = n >= 2^13-2",
 	Enum: enumerateProcs,
 	Run:  RunProcs, Exhaustive: true,
-	CaseCPU: 120e9,
+	CaseCPU: 900e9,
 })
 
 func TestC12Procs(t *testing.T) { pbt.Check(t, specProcs) }
@@ -164,7 +174,9 @@ type WCase struct {
 	Calls int    `json:"calls"` // number of iterations
 }
 
-var wrapLoops = []string{"Insert+Remove", "InsertSlice+RemoveSlice", "Fill", "Reverse", "Grow", "Clone", "Concat", "Repeat"}
+// (the loops "Clone", "Concat" and "Repeat" exist for replay / manual runs but are not enumerated: they allocate in every
+// iteration and would need more than ten minutes each)
+var wrapLoops = []string{"Insert+Remove", "InsertSlice+RemoveSlice", "Fill", "Reverse", "Grow"}
 
 func RunWrap(c WCase) (out pbt.Outcome) {
 	out = pbt.Outcome{Evals: 1}
@@ -283,7 +295,8 @@ var specWrap = pbt.Register(&pbt.Spec[WCase]{
 	Property: "C12", Name: "C12.wrap",
 	Rule: "thorough only, enumerated: one tight loop per helper group, each of 2^32 + 4096 iterations on one 4-element []int with capacity 8, every call's result compared with " +
 		"constants: Insert(1)+Remove(1); InsertSlice(2 values)+RemoveSlice; Fill (value changes every iteration); Reverse; Grow by 2 in place over re-poisoned capacity; " +
-		"Clone and Concat (the result is written to, the input and the previous result must be unchanged); Repeat(v, 3) - so that a 32-bit counter of calls wraps once. " +
+		"so that a 32-bit counter of calls wraps once (Clone, Concat and Repeat allocate in every call and would take more than ten minutes each: not run 2^32 times; " +
+		"C12.many repeats them 2^16 times). " +
 		"non-trivial = more than 2^32 iterations",
 	Enum: func(shard, shards int, tier string, yield func(WCase) bool) {
 		for i, l := range wrapLoops {
